@@ -116,6 +116,7 @@ void ambientRestore(bool withLocale) {
 #include <unistd.h>
 
 void (*ambientYieldHook)(void) = nullptr;
+void (*ambientPreferHook)(void) = nullptr;
 namespace {
 AmbientReads g_reads;
 long long g_simNs = 0;
@@ -242,5 +243,48 @@ int h3amb_pthread_spin_lock(pthread_spinlock_t *l) {
         else
             sched_yield();
     }
+}
+
+// ---- libc facilities with hidden static state (not re-entrant) -------------------------------------------
+// Real behaviour, plus a preferred preemption point on return: the window in which another task can disturb the
+// hidden state (strtok's saved pointer, the static struct tm / message buffer, the process locale) opens here.
+static void nrPoint() {
+    g_reads.nonReentrant++;
+    if (ambientPreferHook) ambientPreferHook();
+}
+char *h3amb_strtok(char *s, const char *d) {
+    char *r = strtok(s, d);
+    nrPoint();
+    return r;
+}
+struct tm *h3amb_localtime(const time_t *t) {
+    struct tm *r = localtime(t);
+    nrPoint();
+    return r;
+}
+struct tm *h3amb_gmtime(const time_t *t) {
+    struct tm *r = gmtime(t);
+    nrPoint();
+    return r;
+}
+char *h3amb_asctime(const struct tm *t) {
+    char *r = asctime(t);
+    nrPoint();
+    return r;
+}
+char *h3amb_ctime(const time_t *t) {
+    char *r = ctime(t);
+    nrPoint();
+    return r;
+}
+char *h3amb_strerror(int e) {
+    char *r = strerror(e);
+    nrPoint();
+    return r;
+}
+char *h3amb_setlocale(int cat, const char *l) {
+    char *r = setlocale(cat, l);
+    nrPoint();
+    return r;
 }
 }
